@@ -121,14 +121,162 @@ theorem exec_renameLink_ok (fs : FS) (src dst : Path) (t : Target)
 def Grow2 (fs fs' : FS) (q d1 d2 : Path) : Prop :=
   fs'.get q = fs.get q ∨ (fs.get q = none ∧ fs'.get q = some .dir ∧ (q <+: d1 ∨ q <+: d2))
 
-/-- **Link phase, an earlier link at the address** (whatever it points at): the address is
-re-pointed at `l.target` by a temp link `cache/tmp/#<next>` renamed over it. -/
+/-! ### `sameFile`: does the occupant of the address already lead to the file being linked? -/
+
+theorem resolve_succ_link {fs : FS} {p : Path} {t : Target} (n : Nat)
+    (h : fs.get p = some (.link t)) :
+    FS.resolve fs (n + 1) p = FS.resolve fs n (FS.targetPath p t) := by
+  simp only [FS.resolve, h]
+
+theorem resolve_succ_nonlink {fs : FS} {p : Path} (n : Nat) (h : ∀ t, fs.get p ≠ some (.link t)) :
+    FS.resolve fs (n + 1) p = some p := by
+  simp only [FS.resolve]
+  trace_state
+  split
+  · rename_i t ht; exact absurd ht (h t)
+  · rfl
+
+/-- Two filesystems with the same symbolic links (at the same paths, with the same text) resolve
+every path alike. -/
+theorem resolve_linkEq {fs fs' : FS}
+    (h : ∀ q t, fs'.get q = some (.link t) ↔ fs.get q = some (.link t)) :
+    ∀ n p, FS.resolve fs' n p = FS.resolve fs n p := by
+  intro n
+  induction n with
+  | zero => intro p; rfl
+  | succ n ih =>
+    intro p
+    by_cases hl : ∃ t, fs.get p = some (.link t)
+    · obtain ⟨t, ht⟩ := hl
+      rw [resolve_succ_link n ht, resolve_succ_link n ((h p t).mpr ht)]
+      exact ih _
+    · rw [resolve_succ_nonlink n (fun t ht => hl ⟨t, ht⟩),
+        resolve_succ_nonlink n (fun t ht => hl ⟨t, (h p t).mp ht⟩)]
+
+/-- Paths that keep their node or turn from absent into a directory keep the links. -/
+theorem linkEq_of_grow {fs fs' : FS}
+    (h : ∀ q, fs'.get q = fs.get q ∨ (fs.get q = none ∧ fs'.get q = some .dir)) :
+    ∀ q t, fs'.get q = some (.link t) ↔ fs.get q = some (.link t) := by
+  intro q t
+  rcases h q with g | ⟨g1, g2⟩
+  · rw [g]
+  · rw [g1, g2]; constructor <;> (intro e; cases e)
+
+/-- The answer of `sameFile p t`. -/
+def sameB (fs : FS) (p : Path) (t : Target) : Bool :=
+  match FS.resolve fs FS.resolveFuel p, FS.resolve fs FS.resolveFuel (FS.targetPath p t) with
+  | some a, some b => a == b && (fs.get a).isSome
+  | _, _ => false
+
+theorem exec_sameFile (fs : FS) (p : Path) (t : Target) :
+    exec env fs (.sameFile p t) = (fs, .bool (sameB fs p t)) := by
+  simp only [exec, sameB]
+  generalize FS.resolve fs FS.resolveFuel p = x
+  generalize FS.resolve fs FS.resolveFuel (FS.targetPath p t) = y
+  cases x <;> cases y <;> rfl
+
+/-- **The occupant of `p` and the link text `t` (read at `p`) lead to the same existing node** —
+what `sameFile p t` answers `true` on (`canonicalize` of both succeeds and agrees). -/
+def SameFile (fs : FS) (p : Path) (t : Target) : Prop :=
+  ∃ a, FS.resolve fs FS.resolveFuel p = some a ∧
+    FS.resolve fs FS.resolveFuel (FS.targetPath p t) = some a ∧ (fs.get a).isSome = true
+
+/-- **The occupant of `p` does not lead to the existing node that `t` leads to**: should both lead
+to one path, nothing exists there (a dangling pair) — and, the check being made after
+`create_dir_all` of `p`'s directory, that path is not one of the directories on the way to `p`. -/
+def NotSameFile (fs : FS) (p : Path) (t : Target) : Prop :=
+  ∀ a, FS.resolve fs FS.resolveFuel p = some a →
+    FS.resolve fs FS.resolveFuel (FS.targetPath p t) = some a →
+    fs.get a = none ∧ ¬ a <+: FS.parent p
+
+/-- Checkable form 1: **a dangling occupant** (its destination is absent and not a directory about
+to be created) never is the same file — whatever the new target. -/
+theorem notSameFile_of_dangling {fs : FS} {p : Path} {t0 : Target} (t : Target)
+    (hold : fs.get p = some (.link t0)) (hgone : fs.get (FS.targetPath p t0) = none)
+    (hnp : ¬ FS.targetPath p t0 <+: FS.parent p) : NotSameFile fs p t := by
+  intro a ha _
+  have : FS.resolve fs FS.resolveFuel p = some (FS.targetPath p t0) := by
+    unfold FS.resolveFuel
+    rw [resolve_succ_link _ hold, resolve_succ_nonlink _ (by rw [hgone]; intro t e; cases e)]
+  rw [this] at ha
+  cases ha
+  exact ⟨hgone, hnp⟩
+
+/-- Checkable form 2: neither the occupant's destination nor the new target is itself a link, and
+they are different paths. -/
+theorem notSameFile_of_ne {fs : FS} {p : Path} {t0 t : Target}
+    (hold : fs.get p = some (.link t0))
+    (hn0 : ∀ t', fs.get (FS.targetPath p t0) ≠ some (.link t'))
+    (hn1 : ∀ t', fs.get (FS.targetPath p t) ≠ some (.link t'))
+    (hne : FS.targetPath p t0 ≠ FS.targetPath p t) : NotSameFile fs p t := by
+  intro a ha hb
+  have h0 : FS.resolve fs FS.resolveFuel p = some (FS.targetPath p t0) := by
+    unfold FS.resolveFuel
+    rw [resolve_succ_link _ hold, resolve_succ_nonlink _ hn0]
+  have h1 : FS.resolve fs FS.resolveFuel (FS.targetPath p t) = some (FS.targetPath p t) := by
+    unfold FS.resolveFuel
+    rw [resolve_succ_nonlink _ hn1]
+  rw [h0] at ha; rw [h1] at hb
+  cases ha
+  exact absurd (Option.some.inj hb).symm hne
+
+/-- Checkable form of `SameFile`: the occupant's text and the new target name one path, which
+holds a node that is not a link (e.g. the regular file being linked). -/
+theorem sameFile_of_eq {fs : FS} {p : Path} {t0 t : Target}
+    (hold : fs.get p = some (.link t0))
+    (he : FS.targetPath p t0 = FS.targetPath p t)
+    (hex : (fs.get (FS.targetPath p t)).isSome = true)
+    (hn1 : ∀ t', fs.get (FS.targetPath p t) ≠ some (.link t')) : SameFile fs p t := by
+  refine ⟨FS.targetPath p t, ?_, ?_, hex⟩
+  · unfold FS.resolveFuel
+    rw [resolve_succ_link _ hold, he, resolve_succ_nonlink _ hn1]
+  · unfold FS.resolveFuel
+    rw [resolve_succ_nonlink _ hn1]
+
+/-- The answer of `sameFile` after `create_dir_all` of the address's directory. -/
+theorem sameB_false_of_not {fs fs1 : FS} {p : Path} {t : Target} (h : NotSameFile fs p t)
+    (hframe : ∀ q, ¬ q <+: FS.parent p → fs1.get q = fs.get q)
+    (hget : ∀ q, fs1.get q = fs.get q ∨ (fs.get q = none ∧ fs1.get q = some .dir)) :
+    sameB fs1 p t = false := by
+  have hr := resolve_linkEq (linkEq_of_grow hget)
+  unfold sameB
+  rw [hr, hr]
+  cases ha : FS.resolve fs FS.resolveFuel p with
+  | none => rfl
+  | some a =>
+    cases hb : FS.resolve fs FS.resolveFuel (FS.targetPath p t) with
+    | none => rfl
+    | some b =>
+      simp only
+      by_cases e : a = b
+      · subst e
+        obtain ⟨g1, g2⟩ := h a ha hb
+        rw [hframe a g2, g1]
+        simp
+      · simp [e]
+
+theorem sameB_true_of_same {fs fs1 : FS} {p : Path} {t : Target} (h : SameFile fs p t)
+    (hget : ∀ q, fs1.get q = fs.get q ∨ (fs.get q = none ∧ fs1.get q = some .dir)) :
+    sameB fs1 p t = true := by
+  have hr := resolve_linkEq (linkEq_of_grow hget)
+  obtain ⟨a, ha, hb, hex⟩ := h
+  unfold sameB
+  rw [hr, hr, ha, hb]
+  have : (fs1.get a).isSome = true := by
+    rcases hget a with g | ⟨g, _⟩
+    · rw [g]; exact hex
+    · rw [g] at hex; cases hex
+  simp [this]
+
+/-- **Link phase, an earlier link at the address that does not lead to the target's file**
+(stale, dangling, pointing elsewhere): the address is re-pointed at `l.target` by a temp link
+`cache/tmp/#<next>` renamed over it. -/
 theorem relink_phase (l : Linker) (fs : FS) (cpath : Path) (t0 : Target)
     (hcp : contentPath l.cache (Sri.compute cfg.H l.algo l.data) = some cpath)
     (hs : l.opts.sri = none) (hz : l.opts.size = none)
     (hd : ∀ q, q ≠ [] → q <+: FS.parent cpath → NoneOrDir fs q)
     (ht : ∀ q, q ≠ [] → q <+: l.cache ++ [dTmp] → NoneOrDir fs q)
-    (hold : fs.get cpath = some (.link t0)) :
+    (hold : fs.get cpath = some (.link t0)) (hns : NotSameFile fs cpath l.target) :
     ∃ fsL, fsL.get cpath = some (.link l.target) ∧
       fsL.get ((l.cache ++ [dTmp]) ++ [tmpName fs.next]) = none ∧
       (∀ q, q ≠ cpath → q ≠ (l.cache ++ [dTmp]) ++ [tmpName fs.next] →
@@ -171,6 +319,8 @@ theorem relink_phase (l : Linker) (fs : FS) (cpath : Path) (t0 : Target)
   have hE0 : exec env fs (.mkdirP (FS.parent cpath)) = (fs1, .unit) := by simp [exec, hm]
   have hE1 : exec env fs1 (.symlink l.target cpath) = (fs1, .err .exists) := by simp [exec, h1c]
   have hE2 : exec env fs1 (.isLink cpath) = (fs1, .bool true) := by simp [exec, h1c]
+  have hE2b : exec env fs1 (.sameFile cpath l.target) = (fs1, .bool false) := by
+    rw [exec_sameFile, sameB_false_of_not hns hframe hget]
   have hE3 : exec env fs1 (.mkdirP (l.cache ++ [dTmp])) = (fs2, .unit) := by simp [exec, hm2]
   have hE4 := exec_mkTempLink_ok env fs2 (l.cache ++ [dTmp]) l.target (isDir_of_get hdir2)
   rw [hnext] at hE4
@@ -207,7 +357,44 @@ theorem relink_phase (l : Linker) (fs : FS) (cpath : Path) (t0 : Target)
     rw [hnext]
   · unfold lcommit indexTail
     simp only [hcp, bind_eq, pure_eq, call, bind_sys, bind_done, run_sys_res, run_sys_fs, hE0, hE1,
-      hE2, hE3, hE4, hE5, hs, hz, Option.getD_none]
+      hE2, hE2b, hE3, hE4, hE5, hs, hz, Option.getD_none]
+    exact ⟨rfl, rfl⟩
+
+/-- **Link phase, an earlier link at the address that already leads to the target's file**: nothing
+is replaced (no write access needed, the address cannot end up pointing at itself). -/
+theorem same_phase (l : Linker) (fs : FS) (cpath : Path) (t0 : Target)
+    (hcp : contentPath l.cache (Sri.compute cfg.H l.algo l.data) = some cpath)
+    (hs : l.opts.sri = none) (hz : l.opts.size = none)
+    (hd : ∀ q, q ≠ [] → q <+: FS.parent cpath → NoneOrDir fs q)
+    (hold : fs.get cpath = some (.link t0)) (hsm : SameFile fs cpath l.target) :
+    ∃ fsL, fsL.get cpath = some (.link t0) ∧
+      (∀ q, Grow fs fsL q (FS.parent cpath)) ∧ fsL.next = fs.next ∧
+      (run env (lcommit cfg l) fs).1 =
+        (run env (indexTail cfg l (Sri.compute cfg.H l.algo l.data)) fsL).1 ∧
+      (run env (lcommit cfg l) fs).2.1 =
+        (run env (indexTail cfg l (Sri.compute cfg.H l.algo l.data)) fsL).2.1 := by
+  have hc := cpath_eq cfg hcp
+  obtain ⟨fs1, hm, hdir, hframe, hget⟩ := mkdirP_ok fs (FS.parent cpath)
+    (by rw [hc]; exact parent_addr_ne_nil _ _ _) hd
+  have h1c : fs1.get cpath = some (.link t0) := by
+    rw [hframe _ (by rw [hc]; exact addr_not_prefix_parent _ _ _ _ _)]; exact hold
+  have hE0 : exec env fs (.mkdirP (FS.parent cpath)) = (fs1, .unit) := by simp [exec, hm]
+  have hE1 : exec env fs1 (.symlink l.target cpath) = (fs1, .err .exists) := by simp [exec, h1c]
+  have hE2 : exec env fs1 (.isLink cpath) = (fs1, .bool true) := by simp [exec, h1c]
+  have hE2b : exec env fs1 (.sameFile cpath l.target) = (fs1, .bool true) := by
+    rw [exec_sameFile, sameB_true_of_same hsm hget]
+  refine ⟨fs1, h1c, ?_, mkdirLevels_next fs fs1 _ _ hm, ?_⟩
+  · intro q
+    rcases hget q with h1 | ⟨h1, h2⟩
+    · exact Or.inl h1
+    · refine Or.inr ⟨h1, h2, ?_⟩
+      apply Classical.byContradiction
+      intro hn
+      rw [hframe q hn, h1] at h2
+      cases h2
+  · unfold lcommit indexTail
+    simp only [hcp, bind_eq, pure_eq, call, bind_sys, bind_done, run_sys_res, run_sys_fs, hE0, hE1,
+      hE2, hE2b, hs, hz, Option.getD_none]
     exact ⟨rfl, rfl⟩
 
 /-- **Link phase, a regular file at the address**: nothing is linked, the file stays. -/
